@@ -118,6 +118,18 @@ impl UintVecMin0 {
         }
     }
 
+    /// Value mask for a bit width of 0..=64 (`1 << 64` would overflow)
+    #[inline]
+    fn mask_for_bits(bits: usize) -> usize {
+        if bits == 0 {
+            0
+        } else if bits >= 64 {
+            !0usize
+        } else {
+            (1usize << bits) - 1
+        }
+    }
+
     /// Compute memory size needed for storage
     ///
     /// # Layout
@@ -278,8 +290,10 @@ impl UintVecMin0 {
 
             while remaining_bits > 0 {
                 let bits_in_byte = (8 - curr_bit_offset).min(remaining_bits);
-                let byte_mask = ((1u8 << bits_in_byte) - 1) << curr_bit_offset;
-                let byte_val = ((remaining_val & ((1 << bits_in_byte) - 1)) as u8) << curr_bit_offset;
+                // bits_in_byte may be 8: build the masks in a wider type
+                let low_mask = (1u16 << bits_in_byte) - 1;
+                let byte_mask = (low_mask as u8) << curr_bit_offset;
+                let byte_val = ((remaining_val & low_mask as usize) as u8) << curr_bit_offset;
 
                 self.data[curr_byte] = (self.data[curr_byte] & !byte_mask) | byte_val;
 
@@ -435,7 +449,7 @@ impl UintVecMin0 {
         assert!(bits <= 64, "Bits must be <= 64");
 
         self.bits = bits;
-        self.mask = if bits == 0 { 0 } else { (1usize << bits) - 1 };
+        self.mask = Self::mask_for_bits(bits);
         self.size = num;
 
         let mem_size = Self::compute_mem_size(bits, num);
@@ -472,7 +486,7 @@ impl UintVecMin0 {
             self.data = Vec::from_raw_parts(data, mem_size, mem_size);
         }
         self.bits = bits;
-        self.mask = if bits == 0 { 0 } else { (1usize << bits) - 1 };
+        self.mask = Self::mask_for_bits(bits);
         self.size = num;
     }
 
